@@ -10,6 +10,18 @@ use slotted_egraphs::*;
 
 pub struct Inv;
 
+/// (language, depth, number of sequences)
+fn lang_segments(tier: Tier) -> Vec<(&'static str, u32, u64)> {
+    let mut v = Vec::new();
+    let depths: Vec<u32> = if tier == Tier::Quick { vec![2, 3] } else { vec![2, 3, 4] };
+    for s in crate::props::inv_langs::specs() {
+        for d in &depths {
+            v.push((s.name, *d, (s.ops.len() as u64).pow(*d)));
+        }
+    }
+    v
+}
+
 fn spaces(tier: Tier) -> Vec<Space> {
     match tier {
         Tier::Quick => vec![
@@ -54,6 +66,12 @@ fn spaces(tier: Tier) -> Vec<Space> {
 
 /// structural invariants of a quiescent e-graph, observable through the public API
 pub fn check_invariants<N: Analysis<Sym>>(eg: &mut EGraph<Sym, N>, rec: &[(T, AppliedId)], fails: &mut Vec<(String, String, String)>, evals: &mut u64) {
+    let rec2: Vec<(String, AppliedId)> = rec.iter().map(|(t, a)| (t.to_sexp(), a.clone())).collect();
+    check_invariants_l(eg, &rec2, fails, evals)
+}
+
+/// structural invariants of a quiescent e-graph over any language
+pub fn check_invariants_l<L: Language, N: Analysis<L>>(eg: &mut EGraph<L, N>, rec: &[(String, AppliedId)], fails: &mut Vec<(String, String, String)>, evals: &mut u64) {
     // built-in consistency check
     if let Err(site) = catch(|| eg.check()) {
         fails.push(("check-failed".into(), site.clone(), format!("EGraph::check() panicked at {site}")));
@@ -110,13 +128,13 @@ pub fn check_invariants<N: Analysis<Sym>>(eg: &mut EGraph<Sym, N>, rec: &[(T, Ap
             let ff = eg.find_applied_id(&f);
             (f, ff)
         }) {
-            Err(site) => fails.push(("panic".into(), site.clone(), format!("find_applied_id of the handle of {} panicked", t.to_sexp()))),
+            Err(site) => fails.push(("panic".into(), site.clone(), format!("find_applied_id of the handle of {} panicked", t))),
             Ok((f, ff)) => {
                 if f != ff {
-                    fails.push(("inconsistent".into(), "canonicalising twice differs from once".into(), format!("{} : {f:?} vs {ff:?}", t.to_sexp())));
+                    fails.push(("inconsistent".into(), "canonicalising twice differs from once".into(), format!("{} : {f:?} vs {ff:?}", t)));
                 }
                 if !eg.is_alive(f.id) {
-                    fails.push(("inconsistent".into(), "canonical invocation is of a dead class".into(), t.to_sexp()));
+                    fails.push(("inconsistent".into(), "canonical invocation is of a dead class".into(), t.to_string()));
                 }
             }
         }
@@ -137,7 +155,7 @@ pub fn check_invariants<N: Analysis<Sym>>(eg: &mut EGraph<Sym, N>, rec: &[(T, Ap
     }
     // extraction of every class
     match catch(|| {
-        let ex = Extractor::<Sym, AstSize>::new(&*eg, AstSize);
+        let ex = Extractor::<L, AstSize>::new(&*eg, AstSize);
         let mut n = 0;
         for &i in &eg.ids() {
             let ai = eg.mk_identity_applied_id(i);
@@ -178,24 +196,42 @@ impl Prop for Inv {
         true
     }
     fn segments(&self, tier: Tier, _cfg: &str) -> Vec<Seg> {
-        self.segs(tier).iter().map(|s| s.seg.clone()).collect()
+        let mut v: Vec<Seg> = self.segs(tier).iter().map(|s| s.seg.clone()).collect();
+        for (name, depth, count) in lang_segments(tier) {
+            v.push(Seg { name: format!("{name}-ops^{depth}"), count, what: format!("one index = one ordered sequence of {depth} operations (insert, union, rewrite iteration with the language's own rules, ematch) over a copy of the repository's test language {name}") });
+        }
+        v
     }
     fn goals(&self) -> Vec<&'static str> {
-        vec!["history_with_symmetry", "history_with_redundancy", "history_with_merge", "self_referential_class"]
+        vec!["history_with_symmetry", "history_with_redundancy", "history_with_merge", "self_referential_class", "test_language_history_with_rewriting"]
     }
     fn rule(&self) -> String {
-        "Every multiset of union/insert operations of the stated depth over the stated alphabets, in every distinct ordering (quick: unflipped and all-flipped orientations; thorough: all orientation patterns), is executed from the empty e-graph in a fresh thread, in the default build and in the build with the crate's internal assertions (`checks`). After each history: no panic/abort/hang, EGraph::check() passes, every e-node of every live class looks up to the identity invocation of that class, mentions all class slots and only refers to live classes, find is idempotent on every handle, a no-op union changes nothing, and extraction of every class and handle returns. A history is non-trivial when its last operation changed the progress measure or node count.".into()
+        "Every multiset of union/insert operations of the stated depth over the stated alphabets, in every distinct ordering (quick: unflipped and all-flipped orientations; thorough: all orientation patterns), is executed from the empty e-graph in a fresh thread, in the default build and in the build with the crate's internal assertions (`checks`). After each history: no panic/abort/hang, EGraph::check() passes, every e-node of every live class looks up to the identity invocation of that class, mentions all class slots and only refers to live classes, find is idempotent on every handle, a no-op union changes nothing, and extraction of every class and handle returns. The same monitor runs after every ordered sequence of 2-3 (thorough 4) operations (insert, union, rewrite iteration with the language's own rule sets incl. beta/let/substitution, ematch) over copies of the repository's test languages Arith, Sdql, Arith2, Fgh and ArrayLang. A history is non-trivial when its last operation changed the progress measure or node count.".into()
     }
     fn assumptions(&self) -> Vec<String> {
-        vec!["inputs are well-formed terms of the Sym driver language (bounded alphabets); rewriting histories are covered by C03/C13/C15's monitors, which also treat panics as failures of C08-kind".into()]
+        vec!["inputs are well-formed terms of the Sym driver language (multiset segments) and of copies of the repository's test languages Arith, Sdql, Arith2, Fgh, ArrayLang (sequence segments with insertion, union, rewriting with their rules, matching and extraction); rewriting over the arithmetic model language is additionally monitored by C03/C13/C14/C15".into()]
     }
     fn describe(&self, tier: Tier, _cfg: &str, seg: usize, idx: u64) -> Value {
         let segs = self.segs(tier);
+        if seg >= segs.len() {
+            let ls = lang_segments(tier);
+            let (name, depth, _) = &ls[seg - segs.len()];
+            let sp = crate::props::inv_langs::specs();
+            let (si, spec) = sp.iter().enumerate().find(|(_, s)| s.name == *name).unwrap();
+            let _ = si;
+            return json!({"language": name, "sequence": crate::props::inv_langs::decode(spec, *depth, idx).iter().map(|o| crate::props::inv_langs::show(spec, o)).collect::<Vec<_>>()});
+        }
         let ops = decode(&segs[seg], idx);
         json!({"multiset": ops.iter().map(|o| o.show()).collect::<Vec<_>>()})
     }
     fn exec(&self, tier: Tier, _cfg: &str, seg: usize, idx: u64) -> Exec {
         let segs = self.segs(tier);
+        if seg >= segs.len() {
+            let ls = lang_segments(tier);
+            let (name, depth, _) = &ls[seg - segs.len()];
+            let si = crate::props::inv_langs::specs().iter().position(|s| s.name == *name).unwrap();
+            return crate::props::inv_langs::exec_lang(si, *depth, idx);
+        }
         let ops = decode(&segs[seg], idx);
         let flips = match tier {
             Tier::Quick => Flips::NoneAndAll,
